@@ -147,7 +147,7 @@ def run(prop, tier, seed, unit_results):
                                       'failure': {'message': 'purity scan: %s at %s:%d' % (what, f, ln), 'blocks': [], 'labels': [], 'where': ['%s:%d' % (f, ln)], 'props': ['C18']},
                                       'witness': {'kind': 'source location', 'file': f, 'line': ln, 'what': what}})
     # Kani leaf harnesses (thorough tier): loop-free, full-domain => complete proofs; a failure carries a concrete counterexample
-    if tier == 'thorough' and prop in ('C03', 'C14') and os.environ.get('VERIF_KANI') != '0':
+    if tier == 'thorough' and prop in ('C03', 'C14', 'C07') and os.environ.get('VERIF_KANI') != '0':
         try:
             import kani_run
             names = [h for h, p_ in kani_run.HARNESSES.items() if p_ == prop]
